@@ -5,6 +5,8 @@
 -/
 import Stevia.Model.TreeImp
 import Stevia.Proofs.TreeState
+import Stevia.Proofs.TreeImpRep
+import Stevia.Proofs.TreeImpInsert
 
 namespace Stevia
 variable {α β : Type} [LinOrd α]
@@ -12,32 +14,249 @@ variable {α β : Type} [LinOrd α]
 /-- The default record the literal model reads for index 0 / out-of-range indices. -/
 def Imp.dflt (kd : α) (vd : β) : Rec α β := ⟨0, 0, 0, 0, kd, vd⟩
 
+section InvFacts
+
+theorem Tree.Inv.rootIn {c : TreeCfg} {s : Tree α β} (h : s.Inv c) : s.root.In s.slots :=
+  fun i hi => h.layoutOk.range i (by simp [hi])
+
+theorem Tree.Inv.rootNodup {c : TreeCfg} {s : Tree α β} (h : s.Inv c) : s.root.slots.Nodup :=
+  (List.nodup_append.1 h.nodup).1
+
+theorem Tree.Inv.height_le {c : TreeCfg} {s : Tree α β} (h : s.Inv c) : s.root.height ≤ s.slots :=
+  Nat.le_trans (T.height_le_length_slots _)
+    (length_le_of_nodup_range _ _ h.rootNodup (fun i hi => h.rootIn i hi))
+
+end InvFacts
+
 /-- `find`: the literal descent finds the slot the functional `find` finds. -/
 theorem Imp.find_eq (c : TreeCfg) (kd : α) (vd : β) (s : Tree α β) (h : s.Inv c) (k : α) :
     Imp.find (Imp.dflt kd vd) (s.image c kd vd) k (s.slots + 1) s.root.slot = (s.root.find k).map (·.1) := by
-  sorry
+  rw [Tree.image_eq_mkImg]
+  exact find_rep _ _ _ _ k s.root _ (Tree.rep_recAt c kd vd s h.rootNodup) h.rootIn
+    (Nat.le_succ_of_le h.height_le)
 
 /-- `lowest`. -/
 theorem Imp.lowest_eq (c : TreeCfg) (kd : α) (vd : β) (s : Tree α β) (h : s.Inv c) :
     Imp.lowest (Imp.dflt kd vd) (s.image c kd vd) = s.lowest := by
-  sorry
+  unfold Imp.lowest Tree.lowest
+  rw [Tree.image_recs_length]
+  rw [Tree.image_eq_mkImg]
+  cases hroot : s.root with
+  | nil => simp [Tree.hdr, hroot, T.slot, T.minKey]
+  | node i l k v hh r =>
+    have hin := h.rootIn
+    have hrep := Tree.rep_recAt c kd vd s h.rootNodup
+    have hht := h.height_le
+    rw [hroot] at hin hrep hht
+    have hi := hin.root
+    simp only [mkImg_hdr, Tree.hdr, hroot, T.slot]
+    rw [if_neg (by omega)]
+    exact lowestGo_rep _ _ _ _ l i k v hh r _ hrep hin (by omega)
 
 /-- `from_bytes_mut`. -/
 theorem Imp.openMut_eq (c : TreeCfg) (kd : α) (vd : β) (s : Tree α β) (h : s.Inv c) :
     Imp.openMut c (s.image c kd vd) = (s.openMut c).image c kd vd := by
-  sorry
+  unfold Imp.openMut Tree.openMut
+  rw [Tree.image_recs_length]
+  show (if s.slots > s.cap then _ else _) = _
+  split <;> rfl
 
 /-- `get_mut` + write. -/
 theorem Imp.update_eq (c : TreeCfg) (kd : α) (vd : β) (s : Tree α β) (h : s.Inv c) (k : α) (v : β) :
     Imp.update (Imp.dflt kd vd) (s.image c kd vd) k v = (((s.update k v).1).image c kd vd, (s.update k v).2) := by
-  sorry
+  have hfind := Imp.find_eq c kd vd s h k
+  unfold Imp.update Tree.update
+  rw [Tree.image_recs_length]
+  show (match Imp.find _ _ k (s.slots + 1) s.root.slot with | none => _ | some i => _) = _
+  rw [hfind]
+  cases hf : s.root.find k with
+  | none => rfl
+  | some p =>
+    obtain ⟨i, v0⟩ := p
+    simp only [Option.map_some]
+    congr 1
+    rw [Tree.image_eq_mkImg, wr_mkImg]
+    have hrep := rep_setVal (s.recAt c kd vd) k v s.root i v0
+      (Tree.rep_recAt c kd vd s h.rootNodup) h.rootNodup hf
+    have hm := T.find_mem_slots hf
+    have hh : Tree.hdr c { s with root := s.root.setVal k v } = Tree.hdr c s := by
+      simp [Tree.hdr, T.slot_setVal, Tree.flhReg, Tree.seqReg]
+    rw [← hh]
+    exact mkImg_eq_image c kd vd { s with root := s.root.setVal k v } _
+      (by rw [T.slots_setVal]; exact h.rootNodup) hrep (by
+        intro j _ _ hj
+        rw [T.slots_setVal] at hj
+        rw [upd_ne _ _ (fun e : j = i => hj (e ▸ hm)), Tree.recAt_of_not_mem c kd vd s hj,
+          Tree.recAt_of_not_mem c kd vd _ (by rw [T.slots_setVal]; exact hj)]
+        rfl)
+
+/-- Closing step of `insert`: a memory that represents the new tree and still holds the allocator
+    records of the allocated state elsewhere is the layout of the new state. -/
+theorem finish_insert (c : TreeCfg) (kd : α) (vd : β) (s s1 : Tree α β) (f : Nat → Rec α β) (t' : T α β)
+    (hsize : s1.size = s.size + 1) (hcap : s1.cap = s.cap) (hslots : s1.slots = s.slots)
+    (hnd : t'.slots.Nodup) (hr : Rep f t')
+    (hfree : ∀ j, 1 ≤ j → j ≤ s.slots → j ∉ t'.slots → f j = s1.freeRec c kd vd j) :
+    mkImg { root := t'.slot, size := s.size + 1, cap := s.cap, flh := s1.flhReg c, seq := s1.seqReg c,
+            pad := 0 } s.slots f = ({ s1 with root := t' } : Tree α β).image c kd vd := by
+  have := mkImg_eq_image c kd vd { s1 with root := t' } f hnd hr (by
+    intro j h1 h2 h3
+    rw [Tree.recAt_of_not_mem c kd vd _ h3]
+    exact hfree j h1 (hslots ▸ h2) h3)
+  rw [← this]
+  simp only [Tree.hdr, hsize, hcap, hslots]
+  rfl
 
 /-- `insert`: descent with a recorded path, `add`, `update_child`, bottom-up `rebalance` over the path
     — equals the recursive insertion with rebalancing on the way back, slot for slot and register for register. -/
 theorem Imp.insert_eq (c : TreeCfg) (kd : α) (vd : β) (s s' : Tree α β) (h : s.Inv c) (k : α) (v : β)
     (r : Option Nat) (hi : s.insert c k v = .ok (s', r)) :
     Imp.insert c (Imp.dflt kd vd) (s.image c kd vd) k v = (s'.image c kd vd, r) := by
-  sorry
+  have hrep := Tree.rep_recAt c kd vd s h.rootNodup
+  have hin := h.rootIn
+  have hfullEq : Imp.isFull (s.image c kd vd) = s.isFull := rfl
+  have hrootEq : (s.image c kd vd).hdr.root = s.root.slot := rfl
+  unfold Tree.insert at hi
+  unfold Imp.insert
+  simp only [hrootEq, hfullEq, Tree.image_recs_length]
+  by_cases hroot : s.root = .nil
+  · -- empty tree
+    simp only [hroot, T.slot_nil, if_true, T.find, Option.isSome_none, Bool.false_eq_true, if_false] at hi ⊢
+    by_cases hfull : s.isFull = true
+    · rw [if_pos hfull] at hi ⊢
+      cases hi; rfl
+    · rw [if_neg hfull] at hi ⊢
+      have hnf : s.size < s.cap := by simpa [Tree.isFull] using hfull
+      obtain ⟨s1, i, ha, hi1, hi2, hni, hroot1, hsize, hcap, hslots, hfr, hadd⟩ :=
+        add_eq c kd vd s h hnf (Imp.dflt kd vd) k v
+      rw [ha] at hi
+      cases hi
+      rw [hadd]
+      simp only [setRoot_mkImg]
+      congr 1
+      rw [hroot1, hroot]
+      have hleaf : Rep (upd (s.recAt c kd vd) i ⟨0, 0, 0, 0, k, v⟩) (T.node i .nil k v 0 .nil) :=
+        ⟨by simp [T.rc], trivial, trivial⟩
+      refine finish_insert c kd vd s s1 _ (T.ins i k v .nil) hsize hcap hslots (by simp [T.ins]) hleaf ?_
+      intro j _ _ hj
+      have hji : j ≠ i := by simpa [T.ins] using hj
+      rw [upd_ne _ _ hji, hfr j hji]
+      exact Tree.recAt_of_not_mem c kd vd s (by rw [hroot]; simp)
+  · have hslot0 : s.root.slot ≠ 0 := fun e => hroot (hin.slot_eq_zero.1 e)
+    rw [if_neg hslot0]
+    cases hfind : s.root.find k with
+    | some p =>
+      simp only [hfind, Option.isSome_some, if_true] at hi
+      cases hi
+      rw [Tree.image_eq_mkImg, insertDescend_some _ _ _ _ k s.root _ _ hroot hrep hin
+        (Nat.le_succ_of_le h.height_le) (by simp [hfind])]
+    | none =>
+      simp only [hfind, Option.isSome_none, Bool.false_eq_true, if_false] at hi
+      obtain ⟨fr, ctx, path', hdesc, hID, hpath⟩ := insertDescend_none (Imp.dflt kd vd) (s.hdr c) s.slots
+        (s.recAt c kd vd) k s.root (s.slots + 1) [(none, none, s.root.slot)] [] hroot hrep hin
+        (Nat.le_succ_of_le h.height_le) hfind (by simp [pathOf])
+      rw [← Tree.image_eq_mkImg] at hID
+      rw [hID]
+      dsimp only
+      by_cases hfull : s.isFull = true
+      · rw [if_pos hfull] at hi ⊢
+        cases hi; rfl
+      · rw [if_neg hfull] at hi ⊢
+        have hnf : s.size < s.cap := by simpa [Tree.isFull] using hfull
+        obtain ⟨s1, i, ha, hi1, hi2, hni, hroot1, hsize, hcap, hslots, hfr, hadd⟩ :=
+          add_eq c kd vd s h hnf (Imp.dflt kd vd) k v
+        rw [ha] at hi
+        cases hi
+        rw [hadd]
+        dsimp only
+        congr 1
+        -- the zipper of the search path
+        have hplug : plug (fr :: ctx) .nil = s.root := by
+          rw [← hdesc]; exact T.plug_descend k s.root [] hfind
+        have hrepP := hrep
+        rw [← hplug, rep_plug] at hrepP
+        obtain ⟨_, hfr0, hsib0, hctx0⟩ := hrepP
+        have hperm : s.root.slots.Perm (slotsC (fr :: ctx)) := by
+          have := slots_plug_perm (fr :: ctx) (.nil : T α β)
+          rw [hplug] at this
+          simpa using this
+        have hndC : (slotsC (fr :: ctx)).Nodup := hperm.nodup_iff.1 h.rootNodup
+        have hinC : ∀ x ∈ slotsC (fr :: ctx), 1 ≤ x ∧ x ≤ s.slots := fun x hx => hin x (hperm.mem_iff.2 hx)
+        have hiC : i ∉ slotsC (fr :: ctx) := fun hm => hni (hperm.mem_iff.2 hm)
+        simp only [slotsC] at hndC hinC hiC
+        have hndC' := hndC
+        simp only [List.cons_append, List.nodup_cons, List.mem_append, not_or, List.nodup_append] at hndC'
+        simp only [List.cons_append, List.mem_cons, List.mem_append, not_or] at hiC
+        -- after `add`
+        have hleaf : Rep (upd (s.recAt c kd vd) i ⟨0, 0, 0, 0, k, v⟩) (T.node i .nil k v 0 .nil) :=
+          ⟨by simp [T.rc], trivial, trivial⟩
+        have hleafIn : (T.node i .nil k v 0 .nil : T α β).In s.slots :=
+          T.In.node ⟨hi1, hi2⟩ (T.in_nil _) (T.in_nil _)
+        have hfr1 : upd (s.recAt c kd vd) i ⟨0, 0, 0, 0, k, v⟩ fr.i = fr.rc 0 := by
+          rw [upd_ne _ _ (Ne.symm hiC.1)]; exact hfr0
+        have hsib1 : Rep (upd (s.recAt c kd vd) i ⟨0, 0, 0, 0, k, v⟩) fr.sib :=
+          hsib0.upd_of_not_mem _ hiC.2.1
+        have hctx1 : RepCtx (upd (s.recAt c kd vd) i ⟨0, 0, 0, 0, k, v⟩) ctx fr.i :=
+          hctx0.congr (fun x hx => upd_ne _ _ (fun e => hiC.2.2 (e ▸ hx)))
+        have hpin : 1 ≤ fr.i ∧ fr.i ≤ s.slots := hinC fr.i (by simp)
+        have hsin : fr.sib.In s.slots := fun x hx => hinC x (by simp [hx])
+        obtain ⟨h', e2, r2⟩ := updateChild_fill (Imp.dflt kd vd)
+          { root := s.root.slot, size := s.size + 1, cap := s.cap, flh := s1.flhReg c, seq := s1.seqReg c,
+            pad := 0 } s.slots _ fr (a := 0) (L := T.node i .nil k v 0 .nil) hpin hfr1 hleaf hsib1 hleafIn hsin
+          (by simp; exact Ne.symm hiC.1) hndC'.1.1
+        have e2' : Imp.updateChild (Imp.dflt kd vd) (mkImg _ s.slots _) fr.i fr.dir i = _ := e2
+        rw [e2']
+        -- the loop
+        have hperm2 : (({ fr with h := h' } : Frame α β).fill (T.node i .nil k v 0 .nil)).slots.Perm
+            (i :: fr.i :: fr.sib.slots) := by
+          refine (Frame.slots_fill_perm _ _).trans ?_
+          simp
+        have hperm3 := hperm2.append_right (slotsC ctx)
+        have hndAll : ((i :: fr.i :: fr.sib.slots) ++ slotsC ctx).Nodup := by
+          rw [List.cons_append, List.nodup_cons]
+          refine ⟨?_, hndC⟩
+          simp only [List.cons_append, List.mem_cons, List.mem_append, not_or]
+          exact ⟨hiC.1, hiC.2.1, hiC.2.2⟩
+        have hctx2 : RepCtx (upd (upd (s.recAt c kd vd) i ⟨0, 0, 0, 0, k, v⟩) fr.i
+            (({ fr with h := h' } : Frame α β).rc i)) ctx fr.i :=
+          hctx1.congr (fun x hx => upd_ne _ _ (fun e => hndC'.1.2 (e ▸ hx)))
+        have hroot2 : s.root.slot = rootSlot ctx fr.i := by
+          rw [← hplug, slot_plug]; rfl
+        obtain ⟨f3, e3, r3, p3, fr3⟩ := rebalance_loop (Imp.dflt kd vd) s.slots ctx
+          { root := s.root.slot, size := s.size + 1, cap := s.cap, flh := s1.flhReg c, seq := s1.seqReg c,
+            pad := 0 } _ _ (Frame.fill_ne_nil _ _) r2 (by simpa using hctx2)
+          (hperm3.nodup_iff.2 hndAll)
+          (by
+            intro x hx
+            have := hperm3.mem_iff.1 hx
+            simp only [List.cons_append, List.mem_cons] at this
+            rcases this with rfl | this
+            · exact ⟨hi1, hi2⟩
+            · exact hinC x (by simpa using this))
+          (by simpa using hroot2)
+        simp only [Frame.slot_fill] at e3
+        have hup : up ctx (({ fr with h := h' } : Frame α β).fill (T.node i .nil k v 0 .nil)).rebalT =
+            s.root.ins i k v := by
+          rw [← Frame.rebalFill_eq]
+          have := T.up_descend i k v s.root [] hfind
+          rw [hdesc] at this
+          exact this
+        rw [hup] at e3 r3 p3
+        unfold Imp.rebalance
+        rw [hpath, e3, hroot1]
+        refine finish_insert c kd vd s s1 f3 _ hsize hcap hslots ?_ r3 ?_
+        · exact (p3.trans hperm3).nodup_iff.2 hndAll
+        · intro j _ _ hj
+          have hj' : j ∉ i :: fr.i :: fr.sib.slots ++ slotsC ctx := fun hm => hj ((p3.trans hperm3).mem_iff.2 hm)
+          rw [fr3 j (fun hm => hj' (hperm3.mem_iff.1 hm))]
+          simp only [List.cons_append, List.mem_cons, List.mem_append, not_or] at hj'
+          rw [upd_ne _ _ hj'.2.1, upd_ne _ _ hj'.1, hfr j hj'.1]
+          exact Tree.recAt_of_not_mem c kd vd s (fun hm => by
+            have := hperm.mem_iff.1 hm
+            simp only [slotsC, List.cons_append, List.mem_cons, List.mem_append] at this
+            rcases this with h1 | h1 | h1
+            · exact hj'.2.1 h1
+            · exact hj'.2.2.1 h1
+            · exact hj'.2.2.2 h1)
 
 /-- `remove`: descent, splice of the in-order successor, `rebalance` over the spliced path, `remove_node`. -/
 theorem Imp.remove_eq (c : TreeCfg) (kd : α) (vd : β) (s s' : Tree α β) (h : s.Inv c) (k : α)
